@@ -105,8 +105,8 @@ Section ProtocolProofs.
                       ++ serve_loop fuel store rest
         end
     end.
-  Proof.
-    intros Hi. cbn [Protocol.serve_loop]. rewrite message_roundtrip by apply wf_request.
+  Proof using Type.
+    clear z_roundtrip z_nonempty. intros Hi. cbn [Protocol.serve_loop]. rewrite message_roundtrip by apply wf_request.
     cbn [request_msg m_type m_body]. rewrite N.eqb_refl.
     replace (N.of_nat (length (le64 CaProtocolRequestHighPriority ++ id_bytes i)) <? 40) with false
       by (rewrite app_length, le64_length; unfold id_bytes; rewrite be_bytes_length; reflexivity).
@@ -119,8 +119,8 @@ Section ProtocolProofs.
 
   Lemma reply_missing i j rest :
     request_chunk_reply i (write_message (missing_msg j) ++ rest) = (PMissing, rest).
-  Proof.
-    unfold Protocol.request_chunk_reply. rewrite message_roundtrip by apply wf_missing. reflexivity.
+  Proof using Type.
+    clear z_roundtrip z_nonempty. unfold Protocol.request_chunk_reply. rewrite message_roundtrip by apply wf_missing. reflexivity.
   Qed.
 
   Lemma reply_chunk i j d rest :
@@ -215,8 +215,8 @@ Section ProtocolProofs.
   (* a failing store ends the session without any reply: the client sees an error *)
   Lemma session_store_failure store i :
     wf_id i -> store i = GFail -> session store [i] = [PErr].
-  Proof.
-    intros Hi Ef. unfold Protocol.session. cbn [client_requests length].
+  Proof using Type.
+    clear z_roundtrip z_nonempty. intros Hi Ef. unfold Protocol.session. cbn [client_requests length].
     rewrite serve_request by exact Hi. rewrite Ef. reflexivity.
   Qed.
 End ProtocolProofs.
